@@ -327,6 +327,37 @@ func BuildInstr(n *wire.N, h Hist) (of.Instruction, error) {
 		} else {
 			in = of.NewInstrApplyActions()
 		}
+		if h.LateGrow {
+			// every conntrack action that is followed by another action is attached bare, receives
+			// its nested actions afterwards, and the remaining actions are added after that
+			kids := n.L["Actions"]
+			for i, c := range kids {
+				if c.K == "nx_ct" && len(c.L["Actions"]) > 0 && i < len(kids)-1 {
+					bare := c.Clone()
+					delete(bare.L, "Actions")
+					a, err := BuildAction(bare, Hist{})
+					if err != nil {
+						return nil, err
+					}
+					in.AddAction(a, false)
+					ct := a.(*of.NXActionConnTrack)
+					for _, k := range c.L["Actions"] {
+						ka, err := BuildAction(k, Hist{})
+						if err != nil {
+							return nil, err
+						}
+						ct.AddAction(ka)
+					}
+					continue
+				}
+				a, err := BuildAction(c, Hist{})
+				if err != nil {
+					return nil, err
+				}
+				in.AddAction(a, false)
+			}
+			return in, nil
+		}
 		var acts []of.Action
 		for _, c := range n.L["Actions"] {
 			a, err := BuildAction(c, h)
